@@ -26,7 +26,7 @@ PRED_DOC = {
     "NeverDifferent@<api>": "no byte-level instance of the scenario was accepted with a state or metadata different from what was saved "
                             "(Archive!InvAcceptedSame on the implementation)",
     "MustReject@<api>": "Archive!Class(faulted archive) = MustReject (Reasons: altered:meta/state, cut-inside-member, lacks:meta/state/sums, "
-                        "checksums-damaged, unexpected-member, gz-cut, gz-trailer-altered) => every instance was rejected",
+                        "lacks-checksum:meta/state, unexpected-member, gz-cut, gz-trailer-altered) => every instance was rejected",
     "MustAcceptSame@<api>": "pristine archive (no fault, or faults that cancel structurally) => accepted, state byte-identical, metadata equal",
     "Instances@<api>": "every instance of the scenario was classified for that entry point",
     "NotHandedToRestore": "the recording FSM behind snapshot.Restore on a live in-memory Raft was never reached after a failing read, "
@@ -45,8 +45,10 @@ ASSUMPTIONS = [
     "end-of-archive blocks are not in the fault alphabet",
     "metadata strings are valid UTF-8 (JSON cannot round-trip other byte strings)",
     "two-fault scenarios are instantiated at sampled position pairs (first/first, last/last, seeded random), single faults at every position",
-    "flips inside SHA256SUMS are classified neutral/damaging by a reference decoder of the sha256sum text format in the harness "
-    "(case of hex letters and trailing white space are neutral); this classification is an input fact, not a verdict",
+    "the text of SHA256SUMS is abstracted to its checksum LINES (member named, digest = saved SHA-256 or not) by a reference decoder "
+    "of the sha256sum text format in the harness; a byte flip inside it is labelled with its effect on the lines (neutral, wrong(j), x(j), "
+    "ok(j), drop(j)); flips with any other effect (a line split in two) are not instantiated. This labelling is an input fact, not a verdict",
+    "line faults (dup, copy, swap, drop, addx, addwrong) re-frame the SHA256SUMS member as a well-formed tar member of the new length",
     "GzTrailerRequired is a named strengthening of the statement: a gzip-wrapped archive whose CRC32/ISIZE trailer is missing or altered must be rejected",
 ]
 
